@@ -4,6 +4,7 @@ import common as C
 import gen_msg as GM
 import wire as W
 import gen_nc as GN
+import gen_stack as GS
 
 
 def hostile_hex(p):
@@ -237,7 +238,7 @@ def run_check(pid, tier, replay=None):
         for s in scheds:
             h = sched_hash(s)
             hashes.add(h)
-            if any(st["a"].startswith(("rt_", "re_")) for st in s["steps"]) or ("conns" in s["cfg"] and nontrivial_msg(s)) or ("max_clients" in s["cfg"] and nontrivial_nc(s)):
+            if any(st["a"].startswith(("rt_", "re_")) or st["a"] == "relay" for st in s["steps"]) or ("conns" in s["cfg"] and nontrivial_msg(s)) or ("max_clients" in s["cfg"] and nontrivial_nc(s)):
                 nontriv.add(h)
         if len(samples) < 3 and scheds:
             s = scheds[0]
@@ -573,6 +574,10 @@ def g_wire_netcode(rng, tier, props):
     return out
 
 
+def g_stack(rng, tier, props):
+    return GS.stack_schedules(rng, props, n_of(tier, 100, 1500), tier != "quick")
+
+
 NC_ASSUME = [
     "TLC (trace monitor) and the observer module spec/NetcodeObs.tla are the oracle",
     "symbolic reading of the AEAD: the chacha20poly1305 crate, the OS RNG and key secrecy are trusted",
@@ -606,6 +611,12 @@ PLANS = {
                      "every kind with fields at 0/1/63/64/16383/16384/2^30-1/2^30/2^62-1, netcode packets of every kind x 15 sequence values x "
                      "payload lengths, tokens with 1..32 IPv4/IPv6 addresses, byte strings (valid encodings, truncations, byte replacements, "
                      "random) for decode-reencode-decode; all cases count as non-trivial, distinct = different step lists"),
+    "C20": Plan("stack", "TraceTransportMon", ["C20"], [("stack", g_stack)], assumptions=[
+                    "TLC (trace monitor) and the observer module spec/TransportObs.tla are the oracle",
+                    "loopback UDP sockets; the relay (harness) sees every datagram; time is the duration argument of the transports' update"],
+                rule="relay fault schedules (drop / duplicate / hold / replay / single-bit corruption per datagram and direction) over 2-3 real "
+                     "client transports and one server transport on loopback UDP, with application / peer / transport initiated disconnects "
+                     "and cut-off clients; distinct = different step lists; every schedule contains faults"),
     "C17": Plan("nc", "TraceNetcodeMon", ["C17"], [("bits", g_nc_bits), ("handshake_histories", g_nc_handshake), ("payload_histories", g_nc_payload)],
                 mc=[mc_job("nc_nonce", "MC_Netcode", {"quick": ["MC_NC_q3.cfg"], "thorough": ["MC_NC_q1.cfg", "MC_NC_q2.cfg", "MC_NC_q3.cfg", "MC_NC_q4.cfg"]}, ["C17"], strict=False)],
                 level="model_checking", assumptions=NC_ASSUME),
@@ -649,7 +660,8 @@ PLANS = {
                 rule="sequences of public API calls of RenetServer / RenetClient (table, status, traffic, undecodable packets, local clients): "
                      "every model state of the depth-5 call graph over two ids + seeded-random sequences up to 25 calls; all are non-trivial "
                      "(each contains at least one call that can disconnect)"),
-    "C13": Plan("msg", "TraceRenetMon", ["C13"], [("sizes", g_sizes), ("random_mixed", g_random_mixed)],
+    "C13": Plan("msg", "TraceRenetMon", ["C13"], [("sizes", g_sizes), ("random_mixed", g_random_mixed),
+                                                   ("nc_payload", g_nc_payload, "nc", "TraceNetcodeMon"), ("nc_handshake", g_nc_handshake, "nc", "TraceNetcodeMon")],
                 mc=[mc_job("conn_sizes", "MC_Conn", {"quick": ["MC_C13_q1.cfg", "MC_C13_q2.cfg"], "thorough": ["MC_C13_q1.cfg", "MC_C13_q2.cfg"]}, ["C13"])],
                 level="model_checking", assumptions=MSG_ASSUME),
     "C14": Plan("msg", "TraceRenetMon", ["C14"], [("random_budget", g_random_budget)],
